@@ -64,6 +64,20 @@ def startup_races():
     return out
 
 
+def pipelined_passive():
+    """PASV / EPSV sent again before the first one is answered (both lines in one segment, or a few loop iterations apart): one
+    listener per session, one port taken, and it goes back when the session ends."""
+    out = []
+    for a in ("PASV", "EPSV"):
+        for b in ("PASV", "EPSV", "EPSV 1"):
+            for gap in (0, 1, 2, 3, 5):
+                for end in ([["send", 1, "QUIT"]], [["vanish", 1]], [["dconnect", 1], ["send", 1, "LIST"], ["deof", 1], ["send", 1, "QUIT"]], [["srvclose"]]):
+                    out.append([["connect", 1], ["send", 1, "USER u2"], ["nq", ["send", 1, a]], ["iter", gap], ["nq", ["send", 1, b]], ["tick", 0]] + end
+                               + ([["connect", 2], ["send", 2, "USER u2"], ["send", 2, "PASV"], ["connect", 3], ["send", 3, "USER u2"], ["send", 3, "EPSV"]]
+                                  if end[-1][0] != "srvclose" else []))
+    return out
+
+
 PLANS = [
     ([3001, 3002], {}),
     ([3001, 3002], {"3001": "inuse"}),
@@ -97,7 +111,11 @@ def run(tier, seed):
     for ports, plan in (([3001, 3002], {}), ([3001], {}), ([3001, 3002], {"3001": ["inuse", "ok"]}), ([], {})):
         cfg = gen.std_cfg(ns=3, usepool=bool(ports), ports=ports, port_plan=plan)
         corecheck.validate(chk, cfg, gen.STD_TREE, sr, label="startup-race:pool%d:%s" % (len(ports), sorted(plan.items())))
-    scheds = scheds + sr
+    pp = pipelined_passive()
+    for ports, plan in (([3001, 3002], {}), ([3001, 3002], {"3001": ["inuse", "ok"]}), ([3001], {"3001": ["inuse", "inuse", "ok"]}), ([], {})):
+        cfg = gen.std_cfg(ns=3, usepool=bool(ports), ports=ports, port_plan=plan)
+        corecheck.validate(chk, cfg, gen.STD_TREE, pp, label="pipelined-passive:pool%d:%s" % (len(ports), sorted(plan.items())))
+    scheds = scheds + sr + pp
     # a server listening on an IPv6 address: PASV opens its listener and then has no IPv4 address to give (503, session ended)
     for ports, plan in (([3001, 3002], {}), ([3001], {"3001": ["inuse", "ok"]})):
         cfg = gen.std_cfg(ns=3, usepool=True, ports=ports, port_plan=plan, v6=True)
